@@ -20,6 +20,7 @@ pub mod dev;
 pub mod ring;
 pub mod qcore;
 pub mod qcheck;
+pub mod c04_transports;
 pub mod c05;
 pub mod c05_drivers;
 pub mod c06;
